@@ -40,17 +40,12 @@ Proof.
   unfold wild_or_eq. rewrite orb_true_iff, is_wild_true, String.eqb_eq. tauto.
 Qed.
 
-(* names whose case-folded forms collide are the same name *)
 
 Lemma coherent_incl l l' : incl l l' -> coherent l' -> coherent l.
 Proof. intros Hi Hc a b Ha Hb. apply Hc; apply Hi; assumption. Qed.
 
 (* ---------------------------------------------------------------- precedence = specificity *)
 
-
-(* i is strictly more specific than j: destination first, then source *)
-
-(* what Intention.Validate / the config-entry validation guarantee of stored intentions *)
 
 Lemma count_exact_cases ns n : count_exact ns n = 0%N \/ count_exact ns n = 1%N \/ count_exact ns n = 2%N.
 Proof. unfold count_exact. destruct (is_wild ns), (is_wild n); auto. Qed.
@@ -102,8 +97,6 @@ Proof.
 Qed.
 
 (* ---------------------------------------------------------------- the specification *)
-
-(* intention i covers the connection (peer, sns/s) -> (dns/d): authz.go's predicate on both sides *)
 
 
 Lemma decide_eq l mt t ns p da ap :
@@ -302,10 +295,6 @@ Qed.
 (* ---------------------------------------------------------------- the legacy table *)
 
 
-(* what the unique lower-cased "source_destination" index maintains *)
-
-(* rows written through the endpoints: validated, local sources (Intention.Apply rejects SourcePeer) *)
-
 Lemma key4_eqb_refl_of_key5 i j : key5 i = key5 j -> key4_eqb i j = true.
 Proof.
   unfold key5, key4_eqb. intros [= _ -> -> -> ->]. rewrite !String.eqb_refl. reflexivity.
@@ -313,7 +302,6 @@ Qed.
 
 Lemma legacy_all_key t : key4_unique t -> forall i j, In i t -> In j t -> key5 i = key5 j -> i = j.
 Proof. intros H i j Hi Hj E. apply H; try assumption. apply key4_eqb_refl_of_key5; exact E. Qed.
-
 
 
 Lemma idx_eq_side mt p i :
@@ -477,7 +465,6 @@ Proof.
   - rewrite IH; [reflexivity|]. intros k Hk. apply H. right; exact Hk.
 Qed.
 
-(* fresh writes: new IDs, new (case-folded) name tuples *)
 
 Lemma set_prec_id w : i_id (set_prec w) = i_id w.
 Proof. reflexivity. Qed.
@@ -541,12 +528,6 @@ Proof.
 Qed.
 
 (* ---------------------------------------------------------------- service-intentions config entries *)
-
-
-
-(* an entry as Normalize + Validate leave it *)
-
-(* the config-entry table: one entry per lower-cased name *)
 
 
 Lemma src_key_eqb_iff a b : src_key_eqb a b = true <-> skey a = skey b.
@@ -881,8 +862,6 @@ Proof.
   - rewrite filter_false_nil. reflexivity.
 Qed.
 
-(* what readSourceIntentionsFromConfigEntriesTxn really selects: the source NAME is covered and the
-   destination's entry has a LOCAL source of that name (the peer of the selected source is not looked at) *)
 
 Lemma has_local_src_call st e m x :
   store_ok st -> In e st ->
@@ -1123,12 +1102,6 @@ Qed.
 
 (* ---------------------------------------------------------------- Store.IntentionMutation(upsert) *)
 
-(* no entry holds two sources with the same service name (e.g. a local and a peered "web") *)
-
-
-(* the intention an accepted upsert stores *)
-
-(* what Validate demands of the write itself *)
 
 Lemma upsert_src_perm n v l :
   NoDup (map s_name l) ->
